@@ -11,7 +11,7 @@ diff, msg = "/tmp/fix/%s.diff" % name, "/tmp/fix/%s.msg" % name
 assert open(msg).read().startswith("fix: "), "message must start with fix:"
 st = subprocess.run(["git", "-C", "/repo", "status", "--porcelain", "--untracked-files=no"], capture_output=True, text=True).stdout
 assert not st.strip(), "/repo dirty:\n" + st
-subprocess.check_call(["git", "-C", "/repo", "apply", "--index", diff])
+subprocess.check_call(["git", "-C", "/repo", "apply", "--index", "--3way", diff])
 subprocess.check_call(["git", "-C", "/repo", "commit", "-q", "-F", msg])
 rev = subprocess.run(["git", "-C", "/repo", "rev-parse", "--short", "HEAD"], capture_output=True, text=True).stdout.strip()
 print("committed", rev)
